@@ -116,3 +116,115 @@ pub fn decisions_since(n: usize) -> Vec<sx::Decision> {
 pub fn lattice_u64() -> Vec<u64> {
     vec![0, 1, 2, 127, 128, 1 << 31, 1 << 32, 1 << 62, (1 << 63) - 2, (1 << 63) - 1]
 }
+
+/// Uniqueness argument `gen * (a - b) == 0  /\  gen != 0  ==>  a == b`, posed to the solver under `hyps`
+/// (which must entail the product equation), with the zero-product lemma instance for that product;
+/// plus the vacuity twin: with `gen == 0` the two values may differ (must be satisfiable).
+pub fn unique_under(name: &str, key: &str, hyps: &[F], gen: Option<Scalar>, a: Scalar, b: Scalar) -> bool {
+    let mut h = hyps.to_vec();
+    if let Some(gen) = gen {
+        h.push(nz(gen));
+        let prod = gen * (a - b);
+        h.push(F::iff(is_z(prod), F::or(vec![is_z(gen), is_z(a - b)])));
+    }
+    let ok = eng::prove_under(name, key, &h, &eq(a, b));
+    if let Some(gen) = gen {
+        let mut h0 = hyps.to_vec();
+        h0.push(is_z(gen));
+        // documentation twin (non-fatal): sat = the exceptional case is real; unsat = the hypotheses already
+        // entail the non-degeneracy (e.g. key validation), so it was not an extra assumption
+        let _ = eng::with_timeout(2000, || eng::satisfiable_opt(&format!("twin[{}]: degenerate factor frees the value", name), "TWIN", &h0, &ne(a, b), false));
+    }
+    ok
+}
+
+pub fn decode<T: serde::de::DeserializeOwned>(bytes: &[u8]) -> Option<T> {
+    bincode::deserialize(bytes).ok()
+}
+
+/// replace one atom of a wire image by a fresh variable of the same kind; returns the new atom's scalar
+pub fn perturb(bytes: &mut [u8], atom: &Atom, name: &str) -> Scalar {
+    let t = sx::fresh_scalar(name, next_shadow());
+    sx::write_token(&mut bytes[atom.off..atom.off + atom.width], atom.kind, t);
+    Scalar::from_term(t)
+}
+pub fn atom_scalar(at: &[Atom], path: &str) -> Scalar {
+    Scalar::from_term(atoms::find(at, path).term())
+}
+pub fn tf(b: bool) -> F {
+    if b {
+        F::True
+    } else {
+        F::False
+    }
+}
+
+/// Run `a` (following the shadow values), then run `b` forced onto exactly the same decision outcomes.
+/// Used to obtain "both calls took the accepting path" as a path condition.
+pub fn same_path<R1, R2>(a: impl FnOnce() -> R1, b: impl FnOnce() -> R2) -> (R1, R2) {
+    let n0 = sx::n_decisions();
+    let ra = a();
+    let seq: Vec<bool> = decisions_since(n0).iter().map(|d| d.outcome).collect();
+    sx::force_seq(seq);
+    let rb = b();
+    assert_eq!(sx::force_pending(), 0, "second call made fewer decisions than the first");
+    (ra, rb)
+}
+
+/// Vacuity guard for an explored path: the unflipped path must have a native witness confirmed by the
+/// solver; a flipped path is classified by a (non-fatal) satisfiability query.  Returns false when the
+/// path is *known* infeasible.
+pub fn path_feasible(name: &str, p: &PathInfo) -> bool {
+    if p.flips.is_empty() {
+        if !matches!(eng::witness(&format!("{}: shadow path has a witness", name), &eng::hyps(), &F::True), Tri::Yes) {
+            eng::inconclusive(&format!("{}: the shadow path has no confirmed witness (vacuous harness)", name));
+        }
+        return true;
+    }
+    let (r, _) = eng::with_timeout(3000, || eng::satisfiable_opt(&format!("{}: flipped path {:?} feasible?", name, p.flips), "TWIN", &eng::hyps(), &F::True, false));
+    !matches!(r, Tri::No(_))
+}
+
+/// Explore every path of `body` (all decisions labelled `label` are flipped, up to `d` flips) and require
+/// that on every *feasible* path the result equals `expect`: a path with another result must have an
+/// unsatisfiable path condition.
+pub fn forced_result(name: &str, key: &str, mode: DrawMode, seed: u64, label: &str, d: usize, expect: bool, mut body: impl FnMut() -> bool) -> usize {
+    let st = explore(mode, seed, d, 256, &[label], |p| {
+        let res = body();
+        if res != expect {
+            if p.flips.is_empty() {
+                eng::finding(key, &format!("{}: result is {} on the shadow path, expected {} for every value", name, res, expect), None, json!({"kind":"none"}));
+            } else {
+                eng::prove(&format!("{}: path {:?} with result {} is infeasible", name, p.flips, res), key, &F::False);
+            }
+        } else if p.flips.is_empty() {
+            path_feasible(name, p);
+        }
+    });
+    for (p, m) in st.panics {
+        eng::inconclusive(&format!("{} panicked on path {:?}: {}", name, p, m));
+    }
+    st.paths
+}
+
+/// "Is atom y (of instance B) free given the condition `same`?"  First the constructive candidate
+/// (B's atom bumped by one, everything else at its shadow value); if that is not a model, the general
+/// query must come back unsat for the atom to count as bound.
+/// Returns Some(model) when the atom is unbound.
+pub fn unbound_query(name: &str, hyps: &[F], same: &F, x: Scalar, y: Scalar) -> Option<std::collections::HashMap<String, String>> {
+    let q = F::and(vec![same.clone(), ne(x, y)]);
+    if let Some(m) = eng::candidate_model(name, "REFUTE", hyps, &q, &[y.term()]) {
+        return Some(m);
+    }
+    match eng::satisfiable(name, "REFUTE", hyps, &q) {
+        (Tri::Yes, m) => m,
+        _ => None,
+    }
+}
+/// documentation query for atoms that are *expected* to be free (response scalars): candidate only
+pub fn expect_free(name: &str, hyps: &[F], same: &F, x: Scalar, y: Scalar) {
+    let q = F::and(vec![same.clone(), ne(x, y)]);
+    if eng::candidate_model(name, "TWIN", hyps, &q, &[y.term()]).is_none() {
+        eng::note(&format!("{}: expected to be free, but the candidate is not a model", name));
+    }
+}
